@@ -364,7 +364,7 @@ pub fn run(cfg: &Cfg, rep: &mut Rep) {
             check_out_of_range_text(rep, &format!("{:02}:{:02}:{:02} {:03}/{:04}", h, mi, sc, doy, y), Some("%H:%M:%S %j/%Y"), what);
         }
     }
-    let nrand = cfg.budget(1_200_000);
+    let nrand = cfg.budget(2_400_000);
     let mut fmts: Vec<String> = DOC_FORMATS.iter().map(|s| s.to_string()).collect();
     for _ in 0..200 {
         fmts.push(gen_format(&mut r));
